@@ -40,7 +40,7 @@ man = dict(
                source_commits=[], add_only=True),
     engines=[dict(name="coq-model+correspondence", path="/verif/coq + /verif/harness + /verif/checks",
                   serves_properties=[c["property_id"] for c in checks],
-                  kind_free_text="Coq 8.16 theorems about a hand-written executable Gallina model; model extracted to OCaml (ExtrOcamlBasic) and run against /repo's working tree on the same cases on every check")],
+                  kind_free_text="Coq 8.16 theorems about a hand-written executable Gallina model; the model is tied to /repo's working tree on every check in two ways: (a) it is extracted to OCaml (ExtrOcamlBasic) and run against the implementation on the same cases (correspondence), (b) the straight-line / table-like parts of the source are re-translated to Gallina by tools/translate.py on every build and proved equal to the model (props/Translated.v)")],
     checks=checks,
     notes="Every check: (1) rebuilds the Coq development (full .vo), (2) re-checks props/<id>.v and its Print Assumptions, (3) runs the correspondence model<->/repo, (4) writes evidence. Fixed defects and known findings: known_findings.json.",
     not_applicable=na)
